@@ -869,7 +869,11 @@ func exTLDec(a []string) (ans string) {
 	return "ok " + c
 }
 
-func goTLSafe(a []string) (ans string) {
+func goTLSafe(a []string) string {
+	return retrySlow(func() string { return goTLSafeOnce(a) })
+}
+
+func goTLSafeOnce(a []string) (ans string) {
 	t, ok := tlByName[a[0]]
 	if !ok {
 		return "bad-op"
